@@ -91,6 +91,12 @@ func InspectSymbolContent(name string) string {
 		case '"':
 			result.WriteString(`\"`)
 			quotes = true
+		case '$':
+			result.WriteString(`\$`)
+			quotes = true
+		case '#':
+			result.WriteString(`\#`)
+			quotes = true
 		case '_':
 			result.WriteByte('_')
 		default:
